@@ -6,6 +6,7 @@ import Rmk.Proofs.TreeLaws
 import Rmk.Proofs.PartialViews
 import Rmk.Proofs.ElemLaws
 import Rmk.Proofs.PartialNested
+import Rmk.Proofs.ObjTreePartial
 namespace Rmk.C17
 open Rmk
 
@@ -126,5 +127,19 @@ theorem child_view (H : Hash) (t : Ty) (p n : Node) (i : Nat) (ct : Ty) (cp : No
     ∃ cn, Impl.childOf H t n i = some (ct, cn) ∧ Summ H cp cn ∧ cp.root H = cn.root H := by
   obtain ⟨cn, h1, h2⟩ := PartialNested.childOf_summ h hc
   exact ⟨cn, h1, h2, h2.root_eq⟩
+
+/-- OBJECT EXPORT of a partial tree: `to_obj()` as the library computes it (read-only iterators over the tree, the
+    tree-reading serialiser) on a tree in which ANY subtrees were summarised either raises or returns exactly the export of
+    the complete value — excluded data is never misread into an export.  (The `Repr` hypothesis is on the COMPLETE tree.) -/
+theorem export_partial (H : Hash) (t : Ty) (v : Val) (p n : Node) (hwf : t.wf = true)
+    (hlim : ReprBasics.limitsOk t = true) (hs : Summ H p n) (h : Impl.Repr H t v n) :
+    Impl.toObjTree H t p = none ∨ Impl.toObjTree H t p = some (Obj.toObj t v) :=
+  ObjTreePartial.toObjTree_summ_repr H t v p n hwf hlim hs h
+
+/-- … in particular it fails or agrees with the export computed on the complete tree -/
+theorem export_partial_agrees (H : Hash) (t : Ty) (v : Val) (p n : Node) (hwf : t.wf = true)
+    (hlim : ReprBasics.limitsOk t = true) (hs : Summ H p n) (h : Impl.Repr H t v n) :
+    Impl.toObjTree H t p = none ∨ Impl.toObjTree H t p = Impl.toObjTree H t n :=
+  ObjTreePartial.toObjTree_summ H t v p n hwf hlim hs h
 
 end Rmk.C17
